@@ -49,6 +49,10 @@ fn dup_logical(rng: &mut Rng, i: u64, codec: u8) -> Logical {
         p.push(Rc::new(longer));
         p
     };
+    if i % 480 == 277 {
+        // a content of 2^24 bytes or more shared by several ids
+        return gen::gen_huge_tiles(rng, codec, (1 << 24) + rng.clone().usize(0, 3));
+    }
     if i % 240 == 37 {
         // contents above 1 MiB (sometimes above 2^24 bytes) present as reader-backed AND in-memory tiles
         return gen::gen_logical(rng, SizeClass::HugeTiles, codec);
